@@ -1004,3 +1004,52 @@ def sdeint_default_bm_work(ts, dt, cap=50000, **kw):
             out["msg"] = str(e)[:200]
         out["splits"] = sb.count
     return out
+
+
+# ---------------------------------------------------------------------------------------
+# fresh noise atoms for the Levy-area approximation (BrownianLaw.tla: FreshAtoms)
+# ---------------------------------------------------------------------------------------
+
+def check_fresh_atoms(cfg, queries, size, levy, entropy=13):
+    """Every random quantity of the object is a deterministic function of (seed, shape) of one `_randn` draw, so two
+    quantities are independent exactly when their draws use different seeds.  The labelled-noise replays key their
+    atoms by seed and so see shared seeds among the W / H draws; the Levy-area noise has its own shape and is covered
+    here: over the history (every query with return_A, then the whole interval) no seed may serve draws of two
+    different shapes (Levy noise tied to an increment), and no two tree nodes may draw their Levy noise from one
+    seed."""
+    fails = []
+    orig, orig_levy = _bi._randn, _bi._Interval._randn_levy
+    by_seed, by_node, keep = {}, {}, []
+
+    def _randn(sz, dtype, device, seed):
+        by_seed.setdefault(int(seed), set()).add(tuple(sz))
+        return orig(sz, dtype, device, seed)
+
+    def _randn_levy(self_):
+        keep.append(self_)
+        try:
+            by_node[id(self_)] = int(self_._a_seed())
+        except Exception:  # noqa: BLE001   (an implementation without per-node Levy seeds: nothing to audit here)
+            pass
+        return orig_levy(self_)
+
+    _bi._randn, _bi._Interval._randn_levy = _randn, _randn_levy
+    try:
+        with warnings.catch_warnings():
+            warnings.simplefilter("ignore")
+            bm = B.make_real(cfg, size=size, levy=levy, entropy=entropy)
+            for a, b in list(queries) + [(0, cfg.round(cfg.T))]:
+                B.call(bm, a, b, cfg, levy)
+    except Exception as e:  # noqa: BLE001
+        fails.append(("exception", dict(exc=type(e).__name__, msg=str(e)[:200])))
+    finally:
+        _bi._randn, _bi._Interval._randn_levy = orig, orig_levy
+    for seed, shapes in by_seed.items():
+        if len(shapes) > 1:
+            fails.append(("levy_noise_shares_seed", dict(seed=seed, shapes=sorted(map(list, shapes)))))
+    seen = {}
+    for node, seed in by_node.items():
+        if seed in seen and seen[seed] != node:
+            fails.append(("levy_noise_same_seed_on_two_nodes", dict(seed=seed)))
+        seen[seed] = node
+    return fails, dict(draw_seeds=len(by_seed), levy_nodes=len(by_node))
